@@ -6,6 +6,7 @@ package gohlslib
 // enumeration of playlist histories; reference model: an integer).
 
 import (
+	"bytes"
 	"encoding/json"
 	"fmt"
 	"net/http"
@@ -529,6 +530,15 @@ func c11LLRun(c *vh.Ctx, cs c11LL) (sig, msg, outcome string) {
 		}
 		return off, len(st.rends[0].segs[k].Body)
 	}
+	// with byte ranges the init section is a sub-range of its resource too (EXT-X-MAP with BYTERANGE)
+	mapRange, mapOff, initRes := "", 0, st.rends[0].init
+	if cs.Ranges != "" {
+		if cs.Ranges == "gap" {
+			mapOff = 5
+		}
+		mapRange = fmt.Sprintf(",BYTERANGE=\"%d@%d\"", len(st.rends[0].init), mapOff)
+		initRes = append(append(bytes.Repeat([]byte{0xEE}, mapOff), st.rends[0].init...), bytes.Repeat([]byte{0xEE}, 9)...)
+	}
 	srv := &stubServer{}
 	srv.handler = func(n int, path, rawQuery string, req *http.Request) srvResp {
 		name := path[strings.LastIndexByte(path, '/')+1:]
@@ -544,7 +554,7 @@ func c11LLRun(c *vh.Ctx, cs c11LL) (sig, msg, outcome string) {
 			if cs.CanSkip {
 				sc += ",CAN-SKIP-UNTIL=6.00000"
 			}
-			fmt.Fprintf(&b, "#EXTM3U\n#EXT-X-VERSION:9\n#EXT-X-TARGETDURATION:1\n#EXT-X-SERVER-CONTROL:%s\n#EXT-X-PART-INF:PART-TARGET=1.00000\n#EXT-X-MEDIA-SEQUENCE:%d\n#EXT-X-MAP:URI=\"r0_init\"\n", sc, k)
+			fmt.Fprintf(&b, "#EXTM3U\n#EXT-X-VERSION:9\n#EXT-X-TARGETDURATION:1\n#EXT-X-SERVER-CONTROL:%s\n#EXT-X-PART-INF:PART-TARGET=1.00000\n#EXT-X-MEDIA-SEQUENCE:%d\n#EXT-X-MAP:URI=\"r0_init\"%s\n", sc, k, mapRange)
 			fmt.Fprintf(&b, "#EXT-X-PROGRAM-DATE-TIME:2022-03-04T05:06:07.250Z\n#EXTINF:1.00000,\nseg%d.mp4\n", k)
 			if k < cs.Rounds && cs.Ranges == "" {
 				fmt.Fprintf(&b, "#EXT-X-PRELOAD-HINT:TYPE=PART,URI=\"part%d.mp4\"\n", k)
@@ -568,7 +578,7 @@ func c11LLRun(c *vh.Ctx, cs c11LL) (sig, msg, outcome string) {
 			}
 			return srvResp{Status: 200, Body: all}
 		case name == "r0_init":
-			return srvResp{Status: 200, Body: st.rends[0].init}
+			return srvResp{Status: 200, Body: initRes}
 		case strings.HasPrefix(name, "part"):
 			var k int
 			fmt.Sscanf(name, "part%d.mp4", &k)
@@ -586,7 +596,11 @@ func c11LLRun(c *vh.Ctx, cs c11LL) (sig, msg, outcome string) {
 	obs := runClientPlain(c.T, uri, srv, cliOpts{})
 	// model
 	var want []string
-	want = append(want, uri, base+"r0_init")
+	if cs.Ranges == "" {
+		want = append(want, uri, base+"r0_init")
+	} else {
+		want = append(want, uri, fmt.Sprintf("%sr0_init [bytes=%d-%d]", base, mapOff, mapOff+len(st.rends[0].init)-1))
+	}
 	poll := uri
 	if cs.CanSkip {
 		if cs.Query {
